@@ -13,8 +13,20 @@ pub const XCP_BIN: &str = "/verif/.build/xcp/debug/xcp";
 pub const PROBE_BIN: &str = "/verif/.build/harness/release/probe";
 pub const FALLBACK_BIN: &str = "/verif/.build/fallback/release/probe-fallback";
 
+pub fn cargo_bin() -> String {
+    if let Ok(c) = std::env::var("XV_CARGO") {
+        return c;
+    }
+    for cand in ["/root/.cargo/bin/cargo", "/usr/local/cargo/bin/cargo"] {
+        if std::path::Path::new(cand).exists() {
+            return cand.to_string();
+        }
+    }
+    "cargo".to_string()
+}
+
 fn cargo_cmd() -> Command {
-    let mut c = Command::new("cargo");
+    let mut c = Command::new(cargo_bin());
     c.env("CARGO_NET_OFFLINE", "true")
         .env_remove("RUSTFLAGS")
         // release *semantics* (wrapping arithmetic, no debug assertions) at dev compile cost
@@ -39,7 +51,7 @@ pub fn build_xcp() -> Result<(), String> {
 
 /// Build the API probe (path dependencies on /repo/libxcp and /repo/libfs).
 pub fn build_probe() -> Result<(), String> {
-    let out = Command::new("cargo")
+    let out = Command::new(cargo_bin())
         .env("CARGO_NET_OFFLINE", "true")
         .env_remove("RUSTFLAGS")
         .current_dir("/verif/harness")
@@ -53,7 +65,7 @@ pub fn build_probe() -> Result<(), String> {
 }
 
 pub fn build_fallback() -> Result<(), String> {
-    let out = Command::new("cargo")
+    let out = Command::new(cargo_bin())
         .env("CARGO_NET_OFFLINE", "true")
         .env_remove("RUSTFLAGS")
         .current_dir("/verif/probe-fallback")
